@@ -1,1 +1,58 @@
-From Helm Require Export Run.RunEng.
+(* C12 correspondence: the engine evaluator (Run/RunEng.v) on histories whose hook lists are
+   COMPUTED by the model from the annotation strings of the rendered hook documents
+   ([hooks_of_docs], Engine/HookMeta.v: the harness prints the documents, never a parsed
+   weight / event / policy), plus, for every install / upgrade, the direct comparison of what the
+   model parses out of each document with the release.Hook records Helm produced
+   (events, weight, delete policies and output-log policies as strings, log-fetch decision). *)
+From Coq Require Import List String Bool Arith ZArith.
+From Helm Require Export Run.RunEng Engine.HookMeta.
+From Helm Require Import Engine.Types.
+From Helm Require Text.Classify.
+Import ListNotations.
+
+(* a release.Hook as Helm parsed it, and (Job / Pod hooks) for which of the two output-log
+   policies the harness saw the logs being fetched is not part of it: see [lg_obs] *)
+Record parsed := mkParsed {
+  pz_kind : string; pz_name : string; pz_events : list string; pz_weight : Z;
+  pz_del : list string; pz_log : list string }.
+
+(* one rendered chart: its hook documents (Helm's order; documents Helm dropped at the end) and
+   the hooks Helm made of them *)
+Record parse_obs := mkParseObs { po_docs : list res; po_hooks : list parsed }.
+
+Record case := mkC12 { k_eng : RunEng.case; k_parse : list parse_obs }.
+
+Definition parsed_of (r : res) : list parsed :=
+  match doc_hook r with
+  | Some h => [mkParsed (r_kind r) (r_name r) (Classify.hk_events h) (Classify.hk_weight h)
+                        (Classify.hk_delete h) (Classify.hk_outlog h)]
+  | None => []
+  end.
+
+Definition parsed_eqb (a b : parsed) : bool :=
+  String.eqb (pz_kind a) (pz_kind b) && String.eqb (pz_name a) (pz_name b)
+  && strs_eqb (pz_events a) (pz_events b) && Z.eqb (pz_weight a) (pz_weight b)
+  && strs_eqb (pz_del a) (pz_del b) && strs_eqb (pz_log a) (pz_log b).
+
+Fixpoint parsed_list_eqb (a b : list parsed) : bool :=
+  match a, b with
+  | [], [] => true
+  | x :: t, y :: u => parsed_eqb x y && parsed_list_eqb t u
+  | _, _ => false
+  end.
+
+Definition parse_ok (p : parse_obs) : bool :=
+  parsed_list_eqb (flat_map parsed_of (po_docs p)) (po_hooks p).
+
+Definition case_ok (c : case) : bool := RunEng.case_ok (k_eng c) && forallb parse_ok (k_parse c).
+
+Fixpoint mismatches_from (i : nat) (cs : list case) : list nat :=
+  match cs with
+  | [] => []
+  | c :: t => if case_ok c then mismatches_from (S i) t else i :: mismatches_from (S i) t
+  end.
+
+Definition mismatches := mismatches_from 0.
+
+(* debugging: engine agreement and parse agreement separately *)
+Definition diag12 (c : case) := (RunEng.diag (k_eng c), map parse_ok (k_parse c)).
